@@ -73,6 +73,13 @@ def case(draw, tier="quick"):
     else:
         # charges and coordinates with all six printed decimals in use
         spec["charges"] = [round(c + (1 if c > 0 else -1) * 1e-6 * draw(hperm.integers(0, 499)), 6) for c in spec["charges"]]
+    if len(spec["pos"]) >= 3 and draw(hperm.integers(0, 7)) == 0:
+        # a neutral structure whose charges have more digits than are printed: one ion of charge +Q and k counter-charges -Q/k
+        # (the six-decimal roundings do not add up to zero)
+        k_ = len(spec["pos"]) - 1
+        Q_ = draw(st.sampled_from([1.0, 2.0, 3.0]))
+        spec["charges"] = [Q_] + [-Q_ / k_] * k_
+        spec["_neutral"] = True
     wide = False
     if spec["pos"] and draw(hperm.integers(0, 7)) == 0:
         # coordinates that need more than the ten characters of the usual column (unwrapped trajectories, atoms far from
@@ -302,6 +309,8 @@ def oracle(c, stats):
     stats.count("call:" + form)
     if spec.get("_empty_entry"):
         stats.count("empty-coefficient-entry")
+    if spec.get("_neutral"):
+        stats.count("neutral-charges-with-many-digits")
     if c.get("wide"):
         stats.count("coordinates-wider-than-the-column")
     stats.count("atoms:%s" % ("1-30" if len(spec["pos"]) <= 30 else "31-127" if len(spec["pos"]) <= 127 else "128-255" if len(spec["pos"]) <= 255 else "256+"))
